@@ -8,12 +8,13 @@ sys.dont_write_bytecode = True
 TECH = {
     'default': 'bounded symbolic execution of the real code (own z3 path explorer symx), exhaustive within bounds',
 }
+CLAIMED = set(open(os.path.join(VERIF, 'tools', 'claimed.txt')).read().split())
 props = [json.loads(l) for l in open(os.path.join(VERIF, 'properties.jsonl'))]
 checks, na = [], []
 for p in props:
     pid = p['id']
     path = os.path.join(VERIF, 'harness', pid.lower() + '.py')
-    if not os.path.exists(path):
+    if not os.path.exists(path) or pid not in CLAIMED:
         na.append(dict(property_id=pid, reason='check not built yet in this tree (design in DESIGN.md section 4); not claimed'))
         continue
     mod = importlib.import_module('harness.' + pid.lower())
